@@ -2,37 +2,82 @@
 (* C08 - handle-level specification of tbox::ObjectPool<T>.                  *)
 (* An object is named by the address of its storage.  What the property      *)
 (* demands of every alloc/free history, for any retention limit:             *)
-(*   - alloc never hands out storage that is still in use;                    *)
+(*   - alloc never hands out storage that is still in use - and storage is   *)
+(*     in use from the moment its constructor STARTS until its destructor    *)
+(*     has RETURNED;                                                          *)
 (*   - every alloc runs exactly one constructor (on the storage it returns),  *)
 (*     every free exactly one destructor (on the object given back), and no   *)
 (*     constructor or destructor runs otherwise;                              *)
 (*   - objects in use keep their contents (nobody else writes their storage). *)
 (* Which address alloc returns, and how many blocks are retained, is open.    *)
+(*                                                                            *)
+(* alloc() and free() are RE-ENTRANT: T's constructor / destructor may call   *)
+(* alloc()/free() of the same pool (a pooled node that owns pooled children). *)
+(* A call is therefore either atomic (PAlloc, PFree: the constructor /        *)
+(* destructor does not touch the pool) or split into PCBeg .. PCEnd /         *)
+(* PDBeg .. PDEnd with further calls in between; `stk` is the stack of        *)
+(* objects whose constructor ("c") or destructor ("d") is running.  A         *)
+(* constructor may also throw (PCEnd(.., TRUE)): alloc() then returns no      *)
+(* object and no destructor is owed; what happens to the block is the pool's  *)
+(* business (not prescribed).                                                  *)
 EXTENDS Integers, FiniteSets, Sequences, TLC
 
-VARIABLES inUse,    \* address -> value of every object in use
-          nctor,    \* constructors that must have run so far
-          ndtor,    \* destructors that must have run so far
+VARIABLES inUse,    \* address -> value of every complete object in use
+          stk,      \* stack of [k, a, v]: objects under construction (k = "c") / under destruction (k = "d"), innermost last
+          nctor,    \* constructors that must have started so far
+          ndtor,    \* destructors that must have started so far
           lastC,    \* address the last constructor must have run on (0 = none yet)
           lastD,    \* address the last destructor must have run on (0 = none yet)
-          pfresh,   \* FALSE iff some alloc returned null or storage that was in use
+          pfresh,   \* FALSE iff some alloc returned null or storage that was in use (incl. under construction / destruction)
           exists    \* the pool object exists
-pvars == <<inUse, nctor, ndtor, lastC, lastD, pfresh, exists>>
+pvars == <<inUse, stk, nctor, ndtor, lastC, lastD, pfresh, exists>>
 NoObjects == [a \in {} |-> 0]
+Busy == {stk[i].a : i \in DOMAIN stk}               \* storage whose constructor / destructor is running
+Occupied == (DOMAIN inUse) \cup Busy                \* storage that must not be handed out
+With(f, a, v) == [x \in (DOMAIN f) \cup {a} |-> IF x = a THEN v ELSE f[x]]
+Without(f, a) == [x \in (DOMAIN f) \ {a} |-> f[x]]
+Top == stk[Len(stk)]
+Pop == SubSeq(stk, 1, Len(stk) - 1)
 
-PInit == inUse = NoObjects /\ nctor = 0 /\ ndtor = 0 /\ lastC = 0 /\ lastD = 0 /\ pfresh = TRUE /\ exists = FALSE
+PInit == /\ inUse = NoObjects /\ stk = <<>> /\ nctor = 0 /\ ndtor = 0 /\ lastC = 0 /\ lastD = 0 /\ pfresh = TRUE
+         /\ exists = FALSE
 
-PNew == ~exists /\ exists' = TRUE /\ UNCHANGED <<inUse, nctor, ndtor, lastC, lastD, pfresh>>
+PNew == ~exists /\ stk = <<>> /\ exists' = TRUE /\ UNCHANGED <<inUse, stk, nctor, ndtor, lastC, lastD, pfresh>>
+\* atomic alloc: constructor runs and returns without touching the pool
 PAlloc(a, v) ==
   /\ exists
-  /\ pfresh' = (pfresh /\ a # 0 /\ a \notin DOMAIN inUse)
-  /\ inUse' = [x \in (DOMAIN inUse) \cup {a} |-> IF x = a THEN v ELSE inUse[x]]
-  /\ nctor' = nctor + 1 /\ lastC' = a /\ UNCHANGED <<ndtor, lastD, exists>>
+  /\ pfresh' = (pfresh /\ a # 0 /\ a \notin Occupied)
+  /\ inUse' = With(inUse, a, v)
+  /\ nctor' = nctor + 1 /\ lastC' = a /\ UNCHANGED <<stk, ndtor, lastD, exists>>
+\* atomic free
 PFree(a) ==
-  /\ exists /\ a \in DOMAIN inUse                  \* callers only give back objects they hold
-  /\ inUse' = [x \in (DOMAIN inUse) \ {a} |-> inUse[x]]
+  /\ exists /\ a \in DOMAIN inUse                  \* callers only give back complete objects they hold
+  /\ inUse' = Without(inUse, a)
+  /\ ndtor' = ndtor + 1 /\ lastD' = a /\ UNCHANGED <<stk, nctor, lastC, pfresh, exists>>
+\* alloc() has chosen storage a and T's constructor has started on it
+PCBeg(a, v) ==
+  /\ exists
+  /\ pfresh' = (pfresh /\ a # 0 /\ a \notin Occupied)
+  /\ stk' = Append(stk, [k |-> "c", a |-> a, v |-> v])
+  /\ nctor' = nctor + 1 /\ lastC' = a /\ UNCHANGED <<inUse, ndtor, lastD, exists>>
+\* the innermost running constructor returns (alloc returns r, which must be its storage) or throws (alloc returns nothing)
+PCEnd(r, thrown) ==
+  /\ stk # <<>> /\ Top.k = "c"
+  /\ stk' = Pop
+  /\ IF thrown THEN inUse' = inUse /\ pfresh' = pfresh
+     ELSE inUse' = With(inUse, Top.a, Top.v) /\ pfresh' = (pfresh /\ r = Top.a)
+  /\ UNCHANGED <<nctor, ndtor, lastC, lastD, exists>>
+\* free(a): T's destructor has started
+PDBeg(a) ==
+  /\ exists /\ a \in DOMAIN inUse
+  /\ inUse' = Without(inUse, a)
+  /\ stk' = Append(stk, [k |-> "d", a |-> a, v |-> inUse[a]])
   /\ ndtor' = ndtor + 1 /\ lastD' = a /\ UNCHANGED <<nctor, lastC, pfresh, exists>>
-PDel == exists /\ inUse = NoObjects /\ exists' = FALSE /\ UNCHANGED <<inUse, nctor, ndtor, lastC, lastD, pfresh>>
+\* the innermost running destructor has returned and free() with it: only now may the storage be handed out again
+PDEnd ==
+  /\ stk # <<>> /\ Top.k = "d"
+  /\ stk' = Pop /\ UNCHANGED <<inUse, nctor, ndtor, lastC, lastD, pfresh, exists>>
+PDel == exists /\ inUse = NoObjects /\ stk = <<>> /\ exists' = FALSE /\ UNCHANGED <<inUse, stk, nctor, ndtor, lastC, lastD, pfresh>>
 
 NeverHandsOutInUse == pfresh
 =============================================================================
